@@ -156,6 +156,8 @@ class FnTranslator:
                 return (qlit(v), 'Q')
             if isinstance(v, str):
                 return (slit(v), 'S')
+            if v is None:
+                return ('None', 'NONE')          # typed at its use: assignment to an optional variable / other side of an if
             raise Refuse('%s: unsupported constant %r' % (self.rel, v))
         if isinstance(n, ast.Name):
             if n.id not in env:
@@ -349,13 +351,32 @@ class FnTranslator:
             return a[0], b[0], a[1]
         if {a[1], b[1]} == {'Z', 'Q'}:
             return self.toQ(a), self.toQ(b), 'Q'
+        # an optional number on one side (None / NaN possible), a plain number or None on the other
+        base = {'Z': 'Z', 'Q': 'Q', 'OZ': 'Z', 'OQ': 'Q', 'NONE': None}
+        if a[1] in base and b[1] in base and ({a[1], b[1]} & {'OZ', 'OQ', 'NONE'}):
+            bs = {base[a[1]], base[b[1]]} - {None}
+            if bs:
+                oty = 'OQ' if 'Q' in bs else 'OZ'
+                return self.coerce(a, oty), self.coerce(b, oty), oty      # (coerce refuses option Z -> option Q)
         raise Refuse('branches of different types %s / %s' % (a[1], b[1]))
 
     def call(self, n, env):
         f = n.func
+        if isinstance(f, ast.Name) and f.id == 'yield_extend__' and not n.keywords:
+            x = self.expr(n.args[0], env)
+            if x[1] != 'Y':
+                raise Refuse('%s: the yields of an opaque range must be a parameter of type Y' % self.rel)
+            return ('(%s ++ %s)' % (env['yield__'][0], x[0]), 'Y')
         if isinstance(f, ast.Name) and f.id == 'yield_append__' and not n.keywords:
             tys = self.yield_types
             e = n.args[0]
+            if isinstance(e, ast.Call) and isinstance(e.func, ast.Name) and e.func.id in self.specs \
+                    and isinstance(self.specs[e.func.id]['ret'], list):
+                # yield f(...) where f is a function of the same module that returns a tuple of the yielded types
+                term, rty = self.call(e, env)
+                if list(rty) != list(tys):
+                    raise Refuse('%s: %s returns %s, the spec yields %s' % (self.rel, e.func.id, rty, tys))
+                return ('(%s ++ [%s])' % (env['yield__'][0], term), 'Y')
             if getattr(self, 'yield_record', None):
                 elts = self.record_fields(e, self.yield_record)      # [loop ties C06] a namedtuple, read on declared fields
             else:
@@ -561,6 +582,8 @@ class FnTranslator:
             return a[0]
         if ty == 'Q' and a[1] == 'Z':
             return self.toQ(a)
+        if a[1] == 'NONE' and ty in ('OQ', 'OZ'):
+            return 'None'
         if ty == 'OQ' and a[1] in ('Q', 'Z'):
             return '(Some %s)' % self.toQ(a)
         if ty == 'OZ' and a[1] == 'Z':
@@ -731,7 +754,7 @@ class FnTranslator:
             key, vnode = self.norm_assign(s, env) if len(s.targets) == 1 else (None, None)
             if key is None:
                 raise Refuse('%s: only `name = expr` / `table[\'column\'] = expr` / `array[index] = expr` assignments' % self.rel)
-            v = self.value_maybe_nan(vnode, env)
+            v = self.none_typed(key, self.value_maybe_nan(vnode, env), env)
             nm = self.new(''.join(c if c.isalnum() else '_' for c in key).strip('_'))
             env2 = dict(env)
             env2[key] = (nm, v[1])
@@ -805,7 +828,28 @@ class FnTranslator:
             tkeys = self.assigned_keys(s.body, env)
             ekeys = self.assigned_keys(s.orelse, env) if s.orelse else []
             if tkeys is None or ekeys is None:
-                raise Refuse('%s: unsupported if-statement shape' % self.rel)
+                # general fallback: a branch that is neither assignment-only nor always leaving (e.g. it holds a `continue`
+                # / `yield` / `return` under a nested if): the statements after the if are translated once per side --
+                # `if c: A else: B; rest`  is  `if c then [A; rest] else [B; rest]`  (no narrowing of optionals here)
+                els = self.block(list(s.orelse or []) + rest, env, ret)
+                if nw is not None:
+                    # `if p is not None [and ...]:` / `if p [and ...]:` on an optional p: inside the then-side p is its
+                    # content (a later `p = None` makes it optional again; the carried type wraps it back in Some)
+                    name, restc, need_truthy = nw
+                    oty = env[name][1]
+                    inner = self.new(name)
+                    envn = dict(env)
+                    envn[name] = (inner, 'Q' if oty == 'OQ' else 'Z')
+                    parts = []
+                    if need_truthy:
+                        parts.append(self.truthy(envn[name]))
+                    parts += [self.cond(r, envn) for r in restc]
+                    c = ' && '.join(parts) if parts else 'true'
+                    th = self.block(list(s.body) + rest, envn, ret)
+                    return ('(match %s with\n   | Some %s => if %s then %s else %s\n   | None => %s end)'
+                            % (env[name][0], inner, c, th, els, els))
+                c = self.cond(s.test, env)
+                return '(if %s then %s\n   else %s)' % (c, self.block(list(s.body) + rest, env, ret), els)
             names = [v for v in dict.fromkeys(tkeys + ekeys) if not self.is_tuple_tmp(v)]   # temporaries of `a, b = x, y` are branch-local
             # a variable bound on one side only and unbound before is branch-local when nothing after the if reads it
             # (including the loop-carried / returned expressions); otherwise the translator refuses
@@ -917,7 +961,7 @@ class FnTranslator:
                 continue
             if isinstance(s, ast.Assign):
                 key, vnode = self.norm_assign(s, env)
-                v = self.value_maybe_nan(vnode, env)
+                v = self.none_typed(key, self.value_maybe_nan(vnode, env), env)
                 nm = self.new(key)
                 lets.append((nm, v[0]))
                 env[key] = (nm, v[1])
@@ -928,8 +972,19 @@ class FnTranslator:
                 for k in keys:
                     if k not in env and not (k in kt and k in (ke or [])):
                         raise Refuse('%s: %s assigned in a nested branch only and not defined before' % (self.rel, k))
-                c = self.cond(s.test, env)
-                tv = self.branch_values(s.body, env, keys)
+                nw = self.narrowing(s.test, env)
+                if nw is not None:
+                    # narrowing of an optional name inside the nested then-side, as in block()
+                    nname, restc, need_truthy = nw
+                    ninner = self.new(nname)
+                    envn = dict(env)
+                    envn[nname] = (ninner, 'Q' if env[nname][1] == 'OQ' else 'Z')
+                    parts = ([self.truthy(envn[nname])] if need_truthy else []) + [self.cond(r, envn) for r in restc]
+                    c = ' && '.join(parts) if parts else 'true'
+                    tv = self.branch_values(s.body, envn, keys)
+                else:
+                    c = self.cond(s.test, env)
+                    tv = self.branch_values(s.body, env, keys)
                 ev = self.branch_values(s.orelse or [], env, keys)
                 tys, tt, et = [], [], []
                 for (ta, tya), (eb, tyb) in zip(tv[1], ev[1]):
@@ -940,7 +995,11 @@ class FnTranslator:
                     for nm2, term in reversed(ls):
                         body = '(let %s := %s in %s)' % (nm2, term, body)
                     return body
-                whole = '(if %s then %s else %s)' % (c, wrap(tv[0], tt), wrap(ev[0], et))
+                if nw is not None:
+                    whole = '(match %s with Some %s => if %s then %s else %s | None => %s end)' % (
+                        env[nname][0], ninner, c, wrap(tv[0], tt), wrap(ev[0], et), wrap(ev[0], et))
+                else:
+                    whole = '(if %s then %s else %s)' % (c, wrap(tv[0], tt), wrap(ev[0], et))
                 nms = [self.new(k) for k in keys]
                 if len(nms) == 1:
                     lets.append((nms[0], whole))
@@ -953,6 +1012,16 @@ class FnTranslator:
     @staticmethod
     def is_tuple_tmp(k):
         return k.startswith('tup') and k.endswith('__')
+
+    def none_typed(self, key, v, env):
+        """`x = None`: x becomes (stays) an optional number of the kind x held before"""
+        if v[1] != 'NONE':
+            return v
+        prev = env.get(key, ('', ''))[1]
+        oty = {'OZ': 'OZ', 'OQ': 'OQ', 'Z': 'OZ', 'Q': 'OQ'}.get(prev)
+        if oty is None:
+            raise Refuse('%s: %s = None where %s is not a number or an optional number' % (self.rel, key, key))
+        return ('None', oty)
 
     def is_raise_guard(self, s):
         return (not s.orelse) and len(s.body) == 1 and isinstance(s.body[0], ast.Raise)
@@ -1082,7 +1151,13 @@ class FnTranslator:
                 self.loop_carried.append(('yield__', 'Y'))
             self.loop_has_break = any(isinstance(x, ast.Break) for x in ast.walk(ast.Module(body=node.body, type_ignores=[]))
                                       if not isinstance(x, (ast.For, ast.While)) or x is node)
-            stmts = self.desugar(node.body)
+            body = list(node.body)
+            for oq in sp.get('opaque', []):
+                nb = self.replace_opaque(body, oq, ast.unparse(ast.Module(body=list(node.body), type_ignores=[])))
+                if nb is body:
+                    raise Refuse('%s.%s: opaque range %r .. %r not found' % (self.rel, sp['name'], oq['first'], oq['last']))
+                body = nb
+            stmts = self.desugar(body)
             tail = [ast.parse(c, mode='eval').body for c, _ in self.loop_carried]
             end = ast.Continue()
             end.lineno, end.col_offset = 0, 0
@@ -1100,6 +1175,65 @@ class FnTranslator:
         rty = sp['ret']
         rcoq = COQTY[rty] if isinstance(rty, str) else '(' + ' * '.join(COQTY[t] for t in rty) + ')%type'
         return pre + 'Definition %s %s : %s :=\n  %s.' % (sp['coq'], params, rcoq, body)
+
+    def replace_opaque(self, stmts, oq, whole):
+        """`opaque=[dict(first=, last=, assigns=[(name, param)], yields=param)]`: a contiguous statement range (array code,
+        an inner loop) is NOT translated; it is replaced by its declared effect -- the named variables take the values of
+        the named parameters and the values it yields are the list parameter.  Checked here: every name the range
+        stores into is declared in `assigns` or occurs nowhere else in the loop body nor in the carried expressions;
+        a range that yields must declare `yields`."""
+        srcs = [ast.unparse(x) for x in stmts]
+        for i, a in enumerate(srcs):
+            if a.startswith(oq['first']):
+                for j in range(i, len(srcs)):
+                    if srcs[j].startswith(oq['last']):
+                        rng = stmts[i:j + 1]
+                        rtext = '\n'.join(srcs[i:j + 1])
+                        outside = whole.replace(rtext, '') if rtext in whole else None
+                        mod = ast.Module(body=rng, type_ignores=[])
+                        if outside is None:
+                            # the range sits in a nested block: compare line by line
+                            outside = '\n'.join(l for l in whole.split('\n') if l.strip() not in {x.strip() for x in rtext.split('\n')})
+                        outside += ' ' + ' '.join(c for c, _ in (self.loop_carried or []))
+                        declared = {nm for nm, _ in oq.get('assigns', [])}
+                        import re as _re
+                        for x in ast.walk(mod):
+                            if isinstance(x, ast.Name) and isinstance(x.ctx, ast.Store) and x.id not in declared:
+                                if _re.search(r'(?<![\w.])' + _re.escape(x.id) + r'(?![\w])', outside):
+                                    raise Refuse('%s: the opaque range stores into %s, which is used outside it and not declared' % (self.rel, x.id))
+                            if isinstance(x, (ast.Return, ast.Break, ast.Continue)):
+                                raise Refuse('%s: the opaque range leaves the iteration' % self.rel)
+                            if isinstance(x, ast.Subscript) and isinstance(x.ctx, ast.Store):
+                                raise Refuse('%s: the opaque range stores into a container' % self.rel)
+                        has_yield = any(isinstance(x, (ast.Yield, ast.YieldFrom)) for x in ast.walk(mod))
+                        if has_yield and not oq.get('yields'):
+                            raise Refuse('%s: the opaque range yields but declares no `yields` parameter' % self.rel)
+                        new = []
+                        if oq.get('yields'):
+                            call = ast.Call(func=ast.Name(id='yield_extend__', ctx=ast.Load()),
+                                            args=[ast.Name(id=oq['yields'], ctx=ast.Load())], keywords=[])
+                            new.append(ast.Assign(targets=[ast.Name(id='yield__', ctx=ast.Store())], value=call))
+                        for nm, prm in oq.get('assigns', []):
+                            new.append(ast.Assign(targets=[ast.Name(id=nm, ctx=ast.Store())], value=ast.Name(id=prm, ctx=ast.Load())))
+                        for x in new:
+                            x.lineno, x.col_offset = 0, 0
+                            ast.fix_missing_locations(x)
+                        return stmts[:i] + new + stmts[j + 1:]
+        out, found = [], False
+        for x in stmts:
+            if not found and isinstance(x, ast.If):
+                b = self.replace_opaque(x.body, oq, whole) if x.body else x.body
+                if b is not x.body and b != x.body:
+                    x = ast.If(test=x.test, body=b, orelse=x.orelse); found = True
+                else:
+                    e = self.replace_opaque(x.orelse, oq, whole) if x.orelse else x.orelse
+                    if e != x.orelse:
+                        x = ast.If(test=x.test, body=x.body, orelse=e); found = True
+                if found:
+                    x.lineno, x.col_offset = 0, 0
+                    ast.fix_missing_locations(x)
+            out.append(x)
+        return out if found else stmts
 
     def find_loop(self, stmts, first):
         for x in stmts:
